@@ -229,7 +229,7 @@ func c03FastqFamily(g *hx.Gen) []byte {
 
 func c03seqGen(g *hx.Gen) {
 	// truncation of valid files at every byte offset
-	for f := g.Scale(8, 200); f > 0 && !g.Done(); f-- {
+	for f := g.Scale(20, 200); f > 0 && !g.Done(); f-- {
 		data, fq, tmpl := c03Valid(g, true)
 		if g.Chance(0.3) {
 			data = bytes.ReplaceAll(data, []byte("\n"), []byte("\r\n"))
@@ -238,7 +238,7 @@ func c03seqGen(g *hx.Gen) {
 			c03Emit(g, fq, tmpl, data[:off])
 		}
 	}
-	n := g.Scale(12000, 400000)
+	n := g.Scale(30000, 400000)
 	for k := 0; k < n && !g.Done(); k++ {
 		switch g.Intn(10) {
 		case 0, 1, 2: // arbitrary bytes
